@@ -1,6 +1,1444 @@
-//! C12: not implemented yet.
-use crate::util::Args;
-pub fn main(_a: &Args) {
-    eprintln!("c12: not implemented");
-    std::process::exit(2);
+//! C12: glif documents composed from legal building blocks with one rule violation (or one
+//! surface variation) injected, both format versions, rendered with varied legal syntax, through
+//! Glyph::parse_raw.  Output: one JSON line per case (document tree and f64 table as Gallina
+//! terms, the implementation's outcome as a Tm, the generator's legality label and class).
+use crate::util::*;
+#[path = "glif_common.rs"]
+mod common;
+use common::*;
+
+// ---------------------------------------------------------------- legality of a point sequence
+// the specification predicate of C11 (positional, cyclic), ported from Model/Contour.v [legalb]
+// t: 0 move 1 line 2 offcurve 3 curve 4 qcurve
+fn seq_legal(pts: &[(u8, bool)]) -> bool {
+    let n = pts.len();
+    let closed = n == 0 || pts[0].0 != 0;
+    let trail = |l: &[(u8, bool)]| l.iter().rev().take_while(|p| p.0 == 2).count();
+    for i in 0..n {
+        let (t, sm) = pts[i];
+        let lin = trail(&pts[..i]);
+        let run = if closed && lin == i { lin + trail(pts) } else { lin };
+        let ok = match t {
+            0 => i == 0,
+            2 => !sm,
+            1 => run == 0,
+            3 => run <= 2,
+            _ => true,
+        };
+        if !ok {
+            return false;
+        }
+    }
+    closed || trail(pts) == 0
+}
+const TYPES: [&str; 5] = ["move", "line", "offcurve", "curve", "qcurve"];
+
+fn gen_seq(rng: &mut Rng, len: usize, want_legal: bool) -> Vec<(u8, bool)> {
+    for _ in 0..200 {
+        let mut v = Vec::new();
+        let open = rng.chance(1, 3);
+        for i in 0..len {
+            let t = if i == 0 && open { 0 } else { *rng.pick(&[1u8, 1, 2, 2, 2, 3, 3, 4]) };
+            let sm = t != 2 && rng.chance(1, 3);
+            v.push((t, sm));
+        }
+        if !want_legal && !v.is_empty() {
+            let i = rng.below(v.len() as u64) as usize;
+            v[i] = (rng.below(5) as u8, rng.chance(1, 2));
+        }
+        if seq_legal(&v) == want_legal {
+            return v;
+        }
+    }
+    if want_legal {
+        vec![(1, false); len]
+    } else {
+        vec![(1, false), (0, false)]
+    }
+}
+
+// ---------------------------------------------------------------- vocabulary of values
+const NUM_OK: [&str; 22] = [
+    "0", "1", "-2.5", "500", "0.1", "1e3", "360", "45", "-1", "2", "-0", "1E2", ".5", "5.", "+7",
+    "0.30000000000000004", "1e-320", "1.7976931348623157e308", "inf", "-inf", "1e400", "NaN",
+];
+const NUM_BAD: [&str; 9] = ["x", " 1", "", "1,0", "0x10", "1_000", "1 ", "--1", "1e"];
+const ANGLE_OK: [&str; 8] = ["0", "360", "45", "90.5", "-0", "3.6e2", "359.99999999999994", "0.0"];
+const ANGLE_BAD: [&str; 8] = ["-1", "360.00000000000006", "400", "inf", "NaN", "-0.0000001", "1e400", "-inf"];
+const COLOR_OK: [&str; 7] = ["1,0,0,1", "0,0.1,1,0", "0.5,0.5,0.5,0.5", "1,1,1,1", "0,0,0,0", "-0,0,1,1", "1e0,0,0,0.25"];
+const COLOR_BAD: [&str; 11] = [
+    "1,0,0", "1,0,0,1,1", "2,0,0,1", "x,0,0,1", "1, 0,0,1", "-1,0,0,1", "", "1,0,0,1,", "NaN,0,0,1",
+    "1.0000000000000002,0,0,0", "0,0,0,inf",
+];
+const HEX_OK: [&str; 10] = ["41", "0041", "1F600", "61", "10FFFF", "0", "D7FF", "E000", "00000041", "1f600"];
+const HEX_BAD: [&str; 11] = ["D800", "DFFF", "110000", "zz", "", "FFFFFFFFF", "-41", "0x41", " 41", "+", "100000000"];
+const NAME_OK: [&str; 8] = ["top", "a b", "\u{e9}", "\u{1d538}x", "a&b<c>\"'", "_", "A.alt", " "];
+const NAME_BAD: [&str; 5] = ["", "a\tb", "a\u{7f}", "a\u{85}b", "\n"];
+const FILE_OK: [&str; 6] = ["a.png", "img 1.png", "\u{e9}.png", "..", "a/", "a/."];
+const FILE_BAD: [&str; 6] = ["", "/a.png", "a/b.png", "./a.png", "a/..", "a//b"];
+const ID_BAD: [&str; 5] = ["\u{e9}", "a\u{7f}", "tab\tx", "\u{1d538}", "LONG"];
+const TK: [&str; 6] = ["xScale", "xyScale", "yxScale", "yScale", "xOffset", "yOffset"];
+
+struct Gen<'a> {
+    rng: &'a mut Rng,
+    ver: u32,
+    next_id: usize,
+    ids: Vec<String>,
+}
+
+impl<'a> Gen<'a> {
+    fn fresh_id(&mut self) -> String {
+        self.next_id += 1;
+        let n = self.next_id;
+        let s = match self.rng.below(8) {
+            0 => format!("id{}", n),
+            1 => format!("p q{}", n),
+            2 => format!("<&\">'{}", n),
+            3 => format!("{}{}", "a".repeat(100 - n.to_string().len()), n),
+            4 => format!("~!{}#", n),
+            5 => format!(" {}", n),
+            _ => format!("i{}", n),
+        };
+        self.ids.push(s.clone());
+        s
+    }
+    fn num(&mut self) -> String {
+        if self.rng.chance(3, 4) {
+            self.rng.pick(&NUM_OK[..10]).to_string()
+        } else {
+            self.rng.pick(&NUM_OK).to_string()
+        }
+    }
+    fn name(&mut self) -> String {
+        self.rng.pick(&NAME_OK).to_string()
+    }
+    fn maybe_id(&mut self, a: &mut Vec<(String, String)>, p: (u64, u64)) {
+        if self.ver == 2 && self.rng.chance(p.0, p.1) {
+            let id = self.fresh_id();
+            a.push(at("identifier", &id));
+        }
+    }
+    fn shuffle<T>(&mut self, v: &mut Vec<T>) {
+        for i in (1..v.len()).rev() {
+            let j = self.rng.below(i as u64 + 1) as usize;
+            v.swap(i, j);
+        }
+    }
+    fn transform(&mut self, a: &mut Vec<(String, String)>) {
+        for k in TK {
+            if self.rng.chance(1, 4) {
+                let v = self.num();
+                a.push(at(k, &v));
+            }
+        }
+    }
+    fn point(&mut self, t: u8, sm: bool, named: Option<String>) -> Node {
+        let mut a = vec![at("x", &self.num()), at("y", &self.num())];
+        if t != 2 || self.rng.chance(1, 2) {
+            a.push(at("type", TYPES[t as usize]));
+        }
+        if sm {
+            a.push(at("smooth", "yes"));
+        } else if self.rng.chance(1, 8) {
+            a.push(at("smooth", "no"));
+        }
+        if let Some(n) = named {
+            a.push(at("name", &n));
+        } else if self.rng.chance(1, 6) {
+            let n = self.name();
+            a.push(at("name", &n));
+        }
+        self.maybe_id(&mut a, (1, 4));
+        self.shuffle(&mut a);
+        em("point", a)
+    }
+    fn contour(&mut self) -> Node {
+        let mut a = Vec::new();
+        self.maybe_id(&mut a, (1, 3));
+        let r = self.rng.below(12);
+        if r == 0 {
+            return em("contour", vec![]);
+        }
+        if r == 1 {
+            return el("contour", a, vec![]);
+        }
+        if r == 2 {
+            // a single move point, named or not: an anchor in format 1
+            let nm = if self.rng.chance(2, 3) { Some(self.name()) } else { None };
+            let p = self.point(0, false, nm);
+            return el("contour", a, vec![p]);
+        }
+        let len = self.rng.range(1, 6) as usize;
+        let seq = gen_seq(self.rng, len, true);
+        let pts = seq.iter().map(|(t, sm)| self.point(*t, *sm, None)).collect();
+        el("contour", a, pts)
+    }
+    fn component(&mut self) -> Node {
+        let mut a = vec![at("base", &self.name())];
+        self.transform(&mut a);
+        self.maybe_id(&mut a, (1, 3));
+        self.shuffle(&mut a);
+        em("component", a)
+    }
+    fn outline(&mut self) -> Node {
+        if self.rng.chance(1, 10) {
+            return em("outline", vec![]);
+        }
+        let n = self.rng.below(5);
+        let mut k = Vec::new();
+        for _ in 0..n {
+            if self.rng.chance(3, 5) {
+                k.push(self.contour());
+            } else {
+                k.push(self.component());
+            }
+        }
+        el("outline", vec![], k)
+    }
+    fn anchor(&mut self) -> Node {
+        let mut a = vec![at("x", &self.num()), at("y", &self.num())];
+        if self.rng.chance(1, 2) {
+            a.push(at("name", &self.name()));
+        }
+        if self.rng.chance(1, 3) {
+            a.push(at("color", *self.rng.pick(&COLOR_OK)));
+        }
+        self.maybe_id(&mut a, (1, 2));
+        self.shuffle(&mut a);
+        em("anchor", a)
+    }
+    fn guideline(&mut self) -> Node {
+        let mut a = Vec::new();
+        match self.rng.below(3) {
+            0 => a.push(at("x", &self.num())),
+            1 => a.push(at("y", &self.num())),
+            _ => {
+                a.push(at("x", &self.num()));
+                a.push(at("y", &self.num()));
+                a.push(at("angle", *self.rng.pick(&ANGLE_OK)));
+            }
+        }
+        if self.rng.chance(1, 3) {
+            a.push(at("name", &self.name()));
+        }
+        if self.rng.chance(1, 3) {
+            a.push(at("color", *self.rng.pick(&COLOR_OK)));
+        }
+        self.maybe_id(&mut a, (1, 2));
+        self.shuffle(&mut a);
+        em("guideline", a)
+    }
+    fn image(&mut self) -> Node {
+        let f = if self.rng.chance(1, 4) { *self.rng.pick(&FILE_OK) } else { "a.png" };
+        let mut a = vec![at("fileName", f)];
+        self.transform(&mut a);
+        if self.rng.chance(1, 3) {
+            a.push(at("color", *self.rng.pick(&COLOR_OK)));
+        }
+        self.shuffle(&mut a);
+        em("image", a)
+    }
+    fn advance(&mut self) -> Node {
+        let mut a = Vec::new();
+        if self.rng.chance(2, 3) {
+            a.push(at("width", &self.num()));
+        }
+        if self.rng.chance(1, 3) {
+            a.push(at("height", &self.num()));
+        }
+        self.shuffle(&mut a);
+        em("advance", a)
+    }
+    fn pv(&mut self, depth: u32) -> Node {
+        let k = if depth >= 3 { self.rng.below(7) } else { self.rng.below(10) };
+        match k {
+            0 | 1 => {
+                let s = *self.rng.pick(&["v", "a b", "x&y<z>", " lead", "trail ", "l1\nl2", "", "\u{e9}\u{1d538}", "\"q\"'"]);
+                if s.is_empty() && self.rng.chance(1, 2) {
+                    em("string", vec![])
+                } else {
+                    el("string", vec![], if s.is_empty() { vec![] } else { vec![Node::Text(s.to_string())] })
+                }
+            }
+            2 => el("integer", vec![], vec![Node::Text(self.rng.pick(&["1", "-5", "70000", "0", "-9223372036854775808", "18446744073709551615", "0x1F", "+3"]).to_string())]),
+            3 => el("real", vec![], vec![Node::Text(self.rng.pick(&["0.1", "-2.5", "1e3", "3", "inf", "-0"]).to_string())]),
+            4 => {
+                if self.rng.chance(1, 2) {
+                    em("true", vec![])
+                } else {
+                    el("true", vec![], vec![])
+                }
+            }
+            5 => em("false", vec![]),
+            6 => {
+                let n = self.rng.below(7) as usize;
+                let bytes: Vec<u8> = (0..n).map(|_| self.rng.below(256) as u8).collect();
+                let mut b = b64(&bytes);
+                if b.len() > 4 && self.rng.chance(1, 2) {
+                    b.insert(4, '\n');
+                    b.insert(0, '\t');
+                }
+                el("data", vec![], if b.is_empty() { vec![] } else { vec![Node::Text(b)] })
+            }
+            7 => el("date", vec![], vec![Node::Text(self.rng.pick(&["2020-01-31T10:00:00Z", "1999-12-31T23:59:59Z", "2001-01-01T00:00:00Z"]).to_string())]),
+            8 => {
+                let n = self.rng.below(3);
+                let k = (0..n).map(|_| self.pv(depth + 1)).collect();
+                el("array", vec![], k)
+            }
+            _ => self.dict(depth + 1, vec![]),
+        }
+    }
+    fn dict(&mut self, depth: u32, extra: Vec<Node>) -> Node {
+        let mut keys = vec!["k1", "k2", "com.x", "a key", "\u{e9}", "<&>"];
+        self.shuffle(&mut keys);
+        let n = self.rng.below(3) as usize;
+        let mut k = Vec::new();
+        for key in keys.into_iter().take(n) {
+            k.push(el("key", vec![], vec![Node::Text(key.to_string())]));
+            k.push(self.pv(depth));
+        }
+        k.extend(extra);
+        if k.is_empty() && self.rng.chance(1, 2) {
+            return em("dict", vec![]);
+        }
+        el("dict", vec![], k)
+    }
+    fn lib(&mut self) -> Node {
+        let mut extra = Vec::new();
+        if self.rng.chance(1, 2) {
+            // public.objectLibs: entries for some identifiers of the document, and orphans
+            let mut inner = Vec::new();
+            let ids = self.ids.clone();
+            for id in ids {
+                if self.rng.chance(1, 2) {
+                    inner.push(el("key", vec![], vec![Node::Text(id)]));
+                    inner.push(self.dict(2, vec![]));
+                }
+            }
+            if self.rng.chance(1, 4) {
+                inner.push(el("key", vec![], vec![Node::Text("orphan".into())]));
+                let v = if self.rng.chance(1, 2) { self.dict(2, vec![]) } else { el("string", vec![], vec![Node::Text("no".into())]) };
+                inner.push(v);
+            }
+            extra.push(el("key", vec![], vec![Node::Text("public.objectLibs".into())]));
+            extra.push(el("dict", vec![], inner));
+        }
+        let d = self.dict(0, extra);
+        el("lib", vec![], vec![d])
+    }
+    fn note(&mut self) -> Node {
+        let t = *self.rng.pick(&[" hi ", "a<b & c", "", "line1\n  line2", "x", "\u{e9}"]);
+        el("note", vec![], if t.is_empty() { vec![] } else { vec![Node::Text(t.to_string())] })
+    }
+    /// a legal document: (nodes before the root, root, nodes after)
+    fn doc(&mut self) -> Vec<Node> {
+        let v2 = self.ver == 2;
+        let mut kids = Vec::new();
+        for _ in 0..self.rng.below(3) {
+            kids.push(em("unicode", vec![at("hex", *self.rng.pick(&HEX_OK))]));
+        }
+        if self.rng.chance(2, 3) {
+            kids.push(self.advance());
+        }
+        if v2 && self.rng.chance(1, 3) {
+            kids.push(self.image());
+        }
+        if self.rng.chance(4, 5) {
+            kids.push(self.outline());
+        }
+        if v2 {
+            for _ in 0..self.rng.below(3) {
+                kids.push(self.anchor());
+            }
+            for _ in 0..self.rng.below(3) {
+                kids.push(self.guideline());
+            }
+            if self.rng.chance(1, 3) {
+                kids.push(self.note());
+            }
+        }
+        // the lib last, so that object libs can refer to the identifiers handed out
+        let lib = if self.rng.chance(1, 2) { Some(self.lib()) } else { None };
+        if let Some(l) = lib {
+            kids.push(l);
+        }
+        self.shuffle(&mut kids);
+        let mut a = vec![at("name", &self.name()), at("format", if v2 { "2" } else { "1" })];
+        if self.rng.chance(1, 10) {
+            a.push(at("formatMinor", "0"));
+        }
+        if self.rng.chance(1, 20) {
+            a[1].1 = if v2 { "02".into() } else { "+1".into() };
+        }
+        self.shuffle(&mut a);
+        let mut d = Vec::new();
+        if self.rng.chance(4, 5) {
+            d.push(Node::Decl);
+        }
+        if self.rng.chance(1, 6) {
+            d.push(Node::Comment(" generated ".into()));
+        }
+        d.push(el("glyph", a, kids));
+        if self.rng.chance(1, 10) {
+            d.push(Node::Comment("end".into()));
+        }
+        d
+    }
+}
+
+fn b64(data: &[u8]) -> String {
+    const A: &[u8] = b"ABCDEFGHIJKLMNOPQRSTUVWXYZabcdefghijklmnopqrstuvwxyz0123456789+/";
+    let mut o = String::new();
+    for ch in data.chunks(3) {
+        let b = [ch[0], *ch.get(1).unwrap_or(&0), *ch.get(2).unwrap_or(&0)];
+        o.push(A[(b[0] >> 2) as usize] as char);
+        o.push(A[(((b[0] & 3) << 4) | (b[1] >> 4)) as usize] as char);
+        if ch.len() > 1 {
+            o.push(A[(((b[1] & 15) << 2) | (b[2] >> 6)) as usize] as char);
+        } else {
+            o.push('=');
+        }
+        if ch.len() > 2 {
+            o.push(A[(b[2] & 63) as usize] as char);
+        } else {
+            o.push('=');
+        }
+    }
+    o
+}
+
+// ---------------------------------------------------------------- tree navigation
+type Path = Vec<usize>;
+struct Site {
+    path: Path,
+    name: String,
+    empty_form: bool,
+    parent: String,
+}
+fn sites(doc: &[Node]) -> Vec<Site> {
+    fn walk(n: &Node, path: &mut Path, parent: &str, out: &mut Vec<Site>) {
+        match n {
+            Node::Empty(name, _) => out.push(Site { path: path.clone(), name: name.clone(), empty_form: true, parent: parent.into() }),
+            Node::Elem(name, _, k) => {
+                out.push(Site { path: path.clone(), name: name.clone(), empty_form: false, parent: parent.into() });
+                if name == "lib" {
+                    return;
+                }
+                for (i, c) in k.iter().enumerate() {
+                    path.push(i);
+                    walk(c, path, name, out);
+                    path.pop();
+                }
+            }
+            _ => {}
+        }
+    }
+    let mut out = Vec::new();
+    for (i, n) in doc.iter().enumerate() {
+        let mut p = vec![i];
+        walk(n, &mut p, "", &mut out);
+    }
+    out
+}
+fn node_mut<'a>(doc: &'a mut [Node], path: &[usize]) -> &'a mut Node {
+    let mut n = &mut doc[path[0]];
+    for i in &path[1..] {
+        n = &mut n.kids_mut().unwrap()[*i];
+    }
+    n
+}
+fn pick_site(doc: &[Node], rng: &mut Rng, pred: impl Fn(&Site) -> bool) -> Option<Path> {
+    let s: Vec<Site> = sites(doc).into_iter().filter(|s| pred(s)).collect();
+    if s.is_empty() {
+        None
+    } else {
+        Some(s[rng.below(s.len() as u64) as usize].path.clone())
+    }
+}
+fn root_index(doc: &[Node]) -> usize {
+    doc.iter().position(|n| n.name() == Some("glyph")).unwrap()
+}
+fn insert_child(doc: &mut [Node], parent: &[usize], rng: &mut Rng, n: Node) {
+    let k = node_mut(doc, parent).kids_mut().unwrap();
+    let i = rng.below(k.len() as u64 + 1) as usize;
+    k.insert(i, n);
+}
+fn set_attr(n: &mut Node, k: &str, v: &str, rng: &mut Rng) {
+    let a = n.attrs_mut().unwrap();
+    if let Some(e) = a.iter_mut().find(|e| e.0 == k) {
+        e.1 = v.to_string();
+    } else {
+        let i = rng.below(a.len() as u64 + 1) as usize;
+        a.insert(i, at(k, v));
+    }
+}
+fn del_attr(n: &mut Node, k: &str) -> bool {
+    let a = n.attrs_mut().unwrap();
+    let l = a.len();
+    a.retain(|e| e.0 != k);
+    a.len() != l
+}
+fn all_ids(doc: &[Node]) -> Vec<String> {
+    let mut v = Vec::new();
+    fn walk(n: &Node, out: &mut Vec<String>) {
+        if let Some(a) = n.attrs() {
+            if matches!(n.name(), Some("anchor" | "guideline" | "contour" | "point" | "component")) {
+                for (k, val) in a {
+                    if k == "identifier" {
+                        out.push(val.clone());
+                    }
+                }
+            }
+        }
+        if n.name() != Some("lib") {
+            if let Some(k) = n.kids() {
+                for c in k {
+                    walk(c, out);
+                }
+            }
+        }
+    }
+    for n in doc {
+        walk(n, &mut v);
+    }
+    v
+}
+
+
+// ---------------------------------------------------------------- class predicates (as in Model/GlifSpec.v)
+fn blank(s: &str) -> bool {
+    s.chars().all(|c| c == ' ' || c == '\t' || c == '\n' || c == '\r')
+}
+fn prolog_node(n: &Node) -> bool {
+    match n {
+        Node::Decl | Node::Comment(_) | Node::DocType(_) => true,
+        Node::Text(s) => blank(s),
+        _ => false,
+    }
+}
+fn root_of(doc: &[Node]) -> Option<&Node> {
+    doc.iter().find(|n| !prolog_node(n))
+}
+fn tview(l: &[Node]) -> Vec<&Node> {
+    l.iter().filter(|n| !matches!(n, Node::Text(s) if blank(s))).collect()
+}
+fn sig_kids(l: &[Node]) -> Vec<&Node> {
+    l.iter().filter(|n| !matches!(n, Node::Comment(_)) && !matches!(n, Node::Text(s) if blank(s))).collect()
+}
+fn kids_of(n: &Node) -> &[Node] {
+    match n {
+        Node::Elem(_, _, k) => k,
+        _ => &[],
+    }
+}
+fn is_kind(n: &Node, k: &str) -> bool {
+    n.name() == Some(k)
+}
+fn texts_of(n: &Node, out: &mut Vec<String>) {
+    match n {
+        Node::Text(s) => out.push(s.clone()),
+        Node::Elem(_, _, k) => k.iter().for_each(|c| texts_of(c, out)),
+        _ => {}
+    }
+}
+fn textless(n: &Node) -> bool {
+    let mut t = Vec::new();
+    kids_of(n).iter().for_each(|c| texts_of(c, &mut t));
+    t.iter().all(|s| blank(s))
+}
+fn f16_outline_child(n: &Node) -> bool {
+    matches!(n, Node::Empty(name, a) if name == "contour" && !a.is_empty())
+}
+fn f16_child(n: &Node) -> bool {
+    match n {
+        Node::Empty(name, a) => (name == "unicode" && !a.iter().any(|e| e.0 == "hex")) || (name == "outline" && !a.is_empty()),
+        Node::Elem(name, a, k) => {
+            (matches!(name.as_str(), "outline" | "lib" | "note") && !a.is_empty())
+                || (name == "note" && k.iter().any(|c| matches!(c, Node::Elem(..) | Node::Empty(..))))
+                || (name == "outline" && tview(k).iter().any(|c| f16_outline_child(c)))
+        }
+        _ => false,
+    }
+}
+fn f16(doc: &[Node]) -> bool {
+    match root_of(doc) {
+        None => false,
+        Some(root) => {
+            let k = tview(kids_of(root));
+            let notes: Vec<&&Node> = k.iter().filter(|n| is_kind(n, "note")).collect();
+            k.iter().any(|n| f16_child(n)) || (notes.len() >= 2 && textless(notes[0]))
+        }
+    }
+}
+fn f14_node(depth: u32, n: &Node) -> bool {
+    let leaf = matches!(n, Node::Elem(name, _, _) if matches!(name.as_str(), "advance" | "unicode" | "image" | "anchor" | "guideline" | "component" | "point"));
+    leaf || match n {
+        Node::Elem(name, _, k) if depth > 0 => {
+            matches!(name.as_str(), "glyph" | "outline" | "contour") && k.iter().any(|c| matches!(c, Node::Comment(_)) || f14_node(depth - 1, c))
+        }
+        Node::Empty(name, _) => name == "note",
+        _ => false,
+    }
+}
+fn f14(doc: &[Node]) -> bool {
+    root_of(doc).map_or(false, |r| f14_node(3, r))
+}
+fn version_of(a: &[(String, String)]) -> Option<u32> {
+    let f = a.iter().find(|e| e.0 == "format")?;
+    let major = f.1.parse::<u32>().ok()?;
+    let minor_ok = match a.iter().find(|e| e.0 == "formatMinor") {
+        None => true,
+        Some(m) => m.1.parse::<u32>() == Ok(0),
+    };
+    if (major == 1 || major == 2) && minor_ok {
+        Some(major)
+    } else {
+        None
+    }
+}
+fn f17(doc: &[Node]) -> bool {
+    doc.iter().any(|n| matches!(n, Node::DocType(_)))
+        || match root_of(doc) {
+            None => false,
+            Some(root) => {
+                matches!(root, Node::Empty(..))
+                    || (root.attrs().and_then(|a| version_of(a)) == Some(1) && sig_kids(kids_of(root)).iter().any(|n| is_kind(n, "note")))
+            }
+        }
+}
+
+// ---------------------------------------------------------------- injections
+/// label of a case: what was done, whether the document obeys the rules of the property, and the
+/// known surface class it falls into ("" = none)
+#[derive(Clone)]
+struct Label {
+    inj: String,
+    legal: bool,
+    class: &'static str,
+}
+fn lab(inj: &str, legal: bool, class: &'static str) -> Option<Label> {
+    Some(Label { inj: inj.to_string(), legal, class })
+}
+
+const N_INJ: u64 = 60;
+const OBJ_KINDS: [&str; 5] = ["anchor", "guideline", "contour", "point", "component"];
+const NUM_ATTRS: [(&str, &str); 22] = [
+    ("advance", "width"), ("advance", "height"), ("anchor", "x"), ("anchor", "y"), ("guideline", "x"),
+    ("guideline", "y"), ("guideline", "angle"), ("point", "x"), ("point", "y"),
+    ("component", "xScale"), ("component", "xyScale"), ("component", "yxScale"), ("component", "yScale"),
+    ("component", "xOffset"), ("component", "yOffset"), ("image", "xScale"), ("image", "xyScale"),
+    ("image", "yxScale"), ("image", "yScale"), ("image", "xOffset"), ("image", "yOffset"), ("point", "x"),
+];
+
+/// make sure the document has an element of that kind (inserting a legal one); returns its path
+fn ensure(doc: &mut Vec<Node>, g: &mut Gen, kind: &str) -> Option<Path> {
+    let want_elem_contour = kind == "contour";
+    let pred = |s: &Site| s.name == kind && (!want_elem_contour || !s.empty_form) && (kind != "point" || s.parent == "contour");
+    if let Some(p) = pick_site(doc, g.rng, pred) {
+        if kind == "outline" {
+            if let Node::Empty(_, _) = node_mut(doc, &p) {
+                *node_mut(doc, &p) = el("outline", vec![], vec![]);
+            }
+        }
+        return Some(p);
+    }
+    let ri = root_index(doc);
+    match kind {
+        "anchor" | "guideline" | "image" | "note" if g.ver == 1 => None,
+        "anchor" => {
+            let n = g.anchor();
+            insert_child(doc, &[ri], g.rng, n);
+            pick_site(doc, g.rng, pred)
+        }
+        "guideline" => {
+            let n = g.guideline();
+            insert_child(doc, &[ri], g.rng, n);
+            pick_site(doc, g.rng, pred)
+        }
+        "image" => {
+            let n = g.image();
+            insert_child(doc, &[ri], g.rng, n);
+            pick_site(doc, g.rng, pred)
+        }
+        "advance" => {
+            let n = g.advance();
+            insert_child(doc, &[ri], g.rng, n);
+            pick_site(doc, g.rng, pred)
+        }
+        "unicode" => {
+            insert_child(doc, &[ri], g.rng, em("unicode", vec![at("hex", "41")]));
+            pick_site(doc, g.rng, pred)
+        }
+        "note" => {
+            let n = g.note();
+            insert_child(doc, &[ri], g.rng, n);
+            pick_site(doc, g.rng, pred)
+        }
+        "lib" => {
+            let n = g.lib();
+            insert_child(doc, &[ri], g.rng, n);
+            pick_site(doc, g.rng, pred)
+        }
+        "outline" | "contour" | "point" | "component" => {
+            // an outline in start form
+            let op = match pick_site(doc, g.rng, |s| s.name == "outline") {
+                Some(p) => {
+                    if let Node::Empty(_, _) = node_mut(doc, &p) {
+                        *node_mut(doc, &p) = el("outline", vec![], vec![]);
+                    }
+                    p
+                }
+                None => {
+                    insert_child(doc, &[ri], g.rng, el("outline", vec![], vec![]));
+                    pick_site(doc, g.rng, |s| s.name == "outline")?
+                }
+            };
+            match kind {
+                "outline" => Some(op),
+                "component" => {
+                    let n = g.component();
+                    insert_child(doc, &op, g.rng, n);
+                    pick_site(doc, g.rng, pred)
+                }
+                _ => {
+                    let mut a = Vec::new();
+                    g.maybe_id(&mut a, (1, 3));
+                    let seq = gen_seq(g.rng, 3, true);
+                    let pts = seq.iter().map(|(t, sm)| g.point(*t, *sm, None)).collect();
+                    insert_child(doc, &op, g.rng, el("contour", a, pts));
+                    pick_site(doc, g.rng, pred)
+                }
+            }
+        }
+        _ => None,
+    }
+}
+
+fn text_el(name: &str, t: &str) -> Node {
+    el(name, vec![], vec![Node::Text(t.to_string())])
+}
+
+fn inject(doc: &mut Vec<Node>, g: &mut Gen, which: u64) -> Option<Label> {
+    let ri = root_index(doc);
+    let ver = g.ver;
+    match which {
+        0 => lab("none", true, ""),
+        // ---- version / name
+        1 => {
+            let v = *g.rng.pick(&["0", "3", "", "-1", "2.0", "x", "4294967296"]);
+            set_attr(&mut doc[ri], "format", v, g.rng);
+            lab(&format!("format={:?}", v), false, "")
+        }
+        2 => {
+            del_attr(&mut doc[ri], "format");
+            lab("format missing", false, "")
+        }
+        3 => {
+            let v = *g.rng.pick(&["1", "x", "2", ""]);
+            set_attr(&mut doc[ri], "formatMinor", v, g.rng);
+            lab(&format!("formatMinor={:?}", v), false, "")
+        }
+        4 => {
+            del_attr(&mut doc[ri], "name");
+            lab("glyph name missing", false, "")
+        }
+        5 => {
+            let v = *g.rng.pick(&NAME_BAD);
+            set_attr(&mut doc[ri], "name", v, g.rng);
+            lab(&format!("glyph name={:?}", v), false, "")
+        }
+        // ---- repeated elements
+        6 => {
+            let kind = *g.rng.pick(&["advance", "outline", "lib", "image", "note"]);
+            let p = ensure(doc, g, kind)?;
+            let mut copy = node_mut(doc, &p).clone();
+            if kind == "note" {
+                // the first note must carry text for norad to notice the second
+                *node_mut(doc, &p) = text_el("note", "first");
+                copy = text_el("note", "second");
+            }
+            if g.rng.chance(1, 2) && kind != "note" {
+                // a different second element of the same kind
+                copy = match kind {
+                    "advance" => em("advance", vec![]),
+                    "outline" => em("outline", vec![]),
+                    "lib" => el("lib", vec![], vec![em("dict", vec![])]),
+                    _ => em("image", vec![at("fileName", "b.png")]),
+                };
+            }
+            insert_child(doc, &[ri], g.rng, copy);
+            lab(&format!("repeated {}", kind), false, "")
+        }
+        7 => {
+            // repeated note where the one norad meets first has no text
+            if ver == 1 {
+                return None;
+            }
+            if let Some(p) = pick_site(doc, g.rng, |s| s.name == "note") {
+                let i = *p.last().unwrap();
+                doc[ri].kids_mut().unwrap().remove(i);
+            }
+            let first = if g.rng.chance(1, 2) { el("note", vec![], vec![]) } else { el("note", vec![], vec![Node::CData("x".into())]) };
+            let k = doc[ri].kids_mut().unwrap();
+            let i = g.rng.below(k.len() as u64 + 1) as usize;
+            k.insert(i, text_el("note", "second"));
+            k.insert(i, first);
+            lab("repeated note, first one without text", false, "F16")
+        }
+        // ---- identifiers
+        8 => {
+            if ver == 1 {
+                return None;
+            }
+            let kind = *g.rng.pick(&OBJ_KINDS);
+            let p = ensure(doc, g, kind)?;
+            let mut v = g.rng.pick(&ID_BAD).to_string();
+            if v == "LONG" {
+                v = "a".repeat(101);
+            }
+            set_attr(node_mut(doc, &p), "identifier", &v, g.rng);
+            lab(&format!("malformed identifier on {}", kind), false, "")
+        }
+        9 => {
+            if ver == 1 {
+                return None;
+            }
+            let k1 = *g.rng.pick(&OBJ_KINDS);
+            let k2 = *g.rng.pick(&OBJ_KINDS);
+            ensure(doc, g, k1)?;
+            ensure(doc, g, k2)?;
+            let usable = |s: &Site, k: &str| s.name == k && (k != "contour" || !s.empty_form) && (k != "point" || s.parent == "contour");
+            if k1 == k2 && sites(doc).iter().filter(|s| usable(s, k1)).count() < 2 {
+                let ri2 = root_index(doc);
+                match k2 {
+                    "anchor" => {
+                        let n = g.anchor();
+                        insert_child(doc, &[ri2], g.rng, n)
+                    }
+                    "guideline" => {
+                        let n = g.guideline();
+                        insert_child(doc, &[ri2], g.rng, n)
+                    }
+                    "component" => {
+                        let op = ensure(doc, g, "outline")?;
+                        let n = g.component();
+                        insert_child(doc, &op, g.rng, n)
+                    }
+                    _ => {
+                        let op = ensure(doc, g, "outline")?;
+                        let seq = gen_seq(g.rng, 2, true);
+                        let pts = seq.iter().map(|(t, sm)| g.point(*t, *sm, None)).collect();
+                        insert_child(doc, &op, g.rng, el("contour", vec![], pts))
+                    }
+                }
+            }
+            let p1 = pick_site(doc, g.rng, |s| usable(s, k1))?;
+            let p2 = pick_site(doc, g.rng, |s| usable(s, k2) && s.path != p1)?;
+            let id = g.fresh_id();
+            set_attr(node_mut(doc, &p1), "identifier", &id, g.rng);
+            set_attr(node_mut(doc, &p2), "identifier", &id, g.rng);
+            lab(&format!("duplicate identifier {} / {}", k1, k2), false, "")
+        }
+        // ---- format 1 gating
+        10 => {
+            if ver != 1 {
+                return None;
+            }
+            let mut g2 = Gen { rng: &mut *g.rng, ver: 2, next_id: 1000, ids: vec![] };
+            let kind = g2.rng.below(3);
+            let n = match kind {
+                0 => g2.anchor(),
+                1 => g2.guideline(),
+                _ => g2.image(),
+            };
+            let mut n = n;
+            del_attr(&mut n, "identifier");
+            insert_child(doc, &[ri], g.rng, n);
+            lab(&format!("format 1 with {}", ["anchor", "guideline", "image"][kind as usize]), false, "")
+        }
+        11 => {
+            if ver != 1 {
+                return None;
+            }
+            let kind = *g.rng.pick(&["contour", "point", "component"]);
+            let p = ensure(doc, g, kind)?;
+            set_attr(node_mut(doc, &p), "identifier", "v1id", g.rng);
+            lab(&format!("format 1 with identifier on {}", kind), false, "")
+        }
+        // ---- required attributes
+        12 => {
+            let (kind, key) = *g.rng.pick(&[("anchor", "x"), ("anchor", "y"), ("point", "x"), ("point", "y"), ("component", "base"), ("image", "fileName")]);
+            let p = ensure(doc, g, kind)?;
+            if !del_attr(node_mut(doc, &p), key) {
+                return None;
+            }
+            lab(&format!("{} without {}", kind, key), false, "")
+        }
+        13 => {
+            let p = ensure(doc, g, "unicode")?;
+            del_attr(node_mut(doc, &p), "hex");
+            lab("unicode without hex", false, "F16")
+        }
+        // ---- guidelines
+        14 => {
+            if ver == 1 {
+                return None;
+            }
+            let p = ensure(doc, g, "guideline")?;
+            let n = node_mut(doc, &p);
+            del_attr(n, "x");
+            del_attr(n, "y");
+            del_attr(n, "angle");
+            let shape = *g.rng.pick(&["xy", "a", "xa", "ya", ""]);
+            if shape.contains('x') {
+                set_attr(n, "x", "1", g.rng);
+            }
+            if shape.contains('y') {
+                set_attr(n, "y", "2", g.rng);
+            }
+            if shape.contains('a') {
+                set_attr(n, "angle", "45", g.rng);
+            }
+            lab(&format!("guideline shape {:?}", shape), false, "")
+        }
+        15 => {
+            if ver == 1 {
+                return None;
+            }
+            let p = ensure(doc, g, "guideline")?;
+            let n = node_mut(doc, &p);
+            set_attr(n, "x", "1", g.rng);
+            set_attr(n, "y", "2", g.rng);
+            let v = *g.rng.pick(&ANGLE_BAD);
+            set_attr(n, "angle", v, g.rng);
+            lab(&format!("guideline angle {}", v), false, "")
+        }
+        // ---- unknown elements / attributes
+        16 => {
+            let parent = *g.rng.pick(&["glyph", "outline", "contour"]);
+            let p = if parent == "glyph" { vec![ri] } else { ensure(doc, g, parent)? };
+            let n = match g.rng.below(4) {
+                0 => em("foo", vec![]),
+                1 => el("foo", vec![], vec![]),
+                2 => {
+                    // a known element in the wrong place
+                    match parent {
+                        "glyph" => g.rng.pick(&[em("point", vec![at("x", "1"), at("y", "1")]), em("component", vec![at("base", "a")]), el("contour", vec![], vec![]), em("glyph", vec![])]).clone(),
+                        "outline" => g.rng.pick(&[em("point", vec![at("x", "1"), at("y", "1")]), em("advance", vec![]), el("outline", vec![], vec![]), em("unicode", vec![at("hex", "41")])]).clone(),
+                        _ => g.rng.pick(&[em("component", vec![at("base", "a")]), em("contour", vec![]), el("contour", vec![], vec![]), em("advance", vec![])]).clone(),
+                    }
+                }
+                _ => Node::Text("stray".into()),
+            };
+            let what = format!("{:?}", n);
+            insert_child(doc, &p, g.rng, n);
+            lab(&format!("unexpected content in {}: {}", parent, &what[..what.len().min(40)]), false, "")
+        }
+        17 => {
+            let kind = *g.rng.pick(&["glyph", "advance", "unicode", "image", "anchor", "guideline", "contour", "point", "component"]);
+            let p = if kind == "glyph" { vec![ri] } else { ensure(doc, g, kind)? };
+            set_attr(node_mut(doc, &p), "bogus", "1", g.rng);
+            lab(&format!("unknown attribute on {}", kind), false, "")
+        }
+        18 => {
+            let kind = *g.rng.pick(&["outline", "lib", "note"]);
+            let p = ensure(doc, g, kind)?;
+            let n = node_mut(doc, &p);
+            let k = *g.rng.pick(&["bogus", "identifier", "name"]);
+            set_attr(n, k, "1", g.rng);
+            lab(&format!("attribute on {}", kind), false, "F16")
+        }
+        // ---- lib
+        19 => {
+            let p = ensure(doc, g, "lib")?;
+            let (k, what): (Vec<Node>, &str) = match g.rng.below(7) {
+                0 => (vec![el("array", vec![], vec![])], "array"),
+                1 => (vec![text_el("string", "x")], "string"),
+                2 => (vec![em("true", vec![])], "true"),
+                3 => (vec![], "empty"),
+                4 => (vec![em("dict", vec![]), em("dict", vec![])], "two values"),
+                5 => (vec![text_el("integer", "7")], "integer"),
+                _ => (vec![Node::Text("words".into())], "text"),
+            };
+            *node_mut(doc, &p) = el("lib", vec![], k);
+            lab(&format!("lib is {}", what), false, "")
+        }
+        20 => {
+            let p = ensure(doc, g, "lib")?;
+            *node_mut(doc, &p) = em("lib", vec![]);
+            lab("lib self-closing", false, "")
+        }
+        21 => {
+            let p = ensure(doc, g, "lib")?;
+            let bad = match g.rng.below(6) {
+                0 => el("dict", vec![], vec![text_el("key", "a")]),
+                1 => el("dict", vec![], vec![text_el("integer", "1"), text_el("integer", "2")]),
+                2 => el("dict", vec![], vec![text_el("key", "a"), text_el("integer", "1x")]),
+                3 => el("dict", vec![], vec![text_el("key", "a"), text_el("real", "abc")]),
+                4 => el("dict", vec![], vec![text_el("key", "a"), el("widget", vec![], vec![])]),
+                _ => el("dict", vec![], vec![Node::Text("zz".into()), text_el("key", "a"), em("true", vec![])]),
+            };
+            *node_mut(doc, &p) = el("lib", vec![], vec![bad]);
+            lab("lib is not a property list", false, "")
+        }
+        22 => {
+            let p = ensure(doc, g, "lib")?;
+            let v = match g.rng.below(3) {
+                0 => text_el("string", "x"),
+                1 => el("array", vec![], vec![]),
+                _ => text_el("integer", "3"),
+            };
+            *node_mut(doc, &p) = el("lib", vec![], vec![el("dict", vec![], vec![text_el("key", "public.objectLibs"), v])]);
+            lab("public.objectLibs is not a dictionary", false, "")
+        }
+        23 => {
+            if ver == 1 {
+                return None;
+            }
+            let kind = *g.rng.pick(&OBJ_KINDS);
+            let op = ensure(doc, g, kind)?;
+            // an empty contour is dropped by the reader, its entry then belongs to no object
+            if kind == "contour" && node_mut(doc, &op).kids().map_or(true, |k| k.is_empty()) {
+                return None;
+            }
+            let id = g.fresh_id();
+            set_attr(node_mut(doc, &op), "identifier", &id, g.rng);
+            let p = ensure(doc, g, "lib")?;
+            let v = match g.rng.below(3) {
+                0 => text_el("string", "x"),
+                1 => el("array", vec![], vec![]),
+                _ => em("true", vec![]),
+            };
+            *node_mut(doc, &p) = el("lib", vec![], vec![el("dict", vec![], vec![text_el("key", "public.objectLibs"), el("dict", vec![], vec![text_el("key", &id), v])])]);
+            lab(&format!("object lib of {} is not a dictionary", kind), false, "")
+        }
+        // ---- malformed numbers, colours, code points, types, names
+        24 => {
+            let (kind, key) = *g.rng.pick(&NUM_ATTRS);
+            let p = ensure(doc, g, kind)?;
+            let v = *g.rng.pick(&NUM_BAD);
+            let n = node_mut(doc, &p);
+            if kind == "guideline" {
+                set_attr(n, "x", "1", g.rng);
+                set_attr(n, "y", "1", g.rng);
+                set_attr(n, "angle", "1", g.rng);
+            }
+            set_attr(n, key, v, g.rng);
+            lab(&format!("{} {}={:?}", kind, key, v), false, "")
+        }
+        25 => {
+            let kind = *g.rng.pick(&["anchor", "guideline", "image"]);
+            let p = ensure(doc, g, kind)?;
+            let v = *g.rng.pick(&COLOR_BAD);
+            set_attr(node_mut(doc, &p), "color", v, g.rng);
+            lab(&format!("{} color={:?}", kind, v), false, "")
+        }
+        26 => {
+            let p = ensure(doc, g, "unicode")?;
+            let v = *g.rng.pick(&HEX_BAD);
+            set_attr(node_mut(doc, &p), "hex", v, g.rng);
+            lab(&format!("unicode hex={:?}", v), false, "")
+        }
+        27 => {
+            let p = ensure(doc, g, "point")?;
+            let v = *g.rng.pick(&["bogus", "", "Move", "line ", "off"]);
+            set_attr(node_mut(doc, &p), "type", v, g.rng);
+            lab(&format!("point type={:?}", v), false, "")
+        }
+        28 => {
+            let (kind, key) = *g.rng.pick(&[("anchor", "name"), ("guideline", "name"), ("point", "name"), ("component", "base")]);
+            let p = ensure(doc, g, kind)?;
+            let v = *g.rng.pick(&NAME_BAD);
+            set_attr(node_mut(doc, &p), key, v, g.rng);
+            lab(&format!("{} {}={:?}", kind, key, v), false, "")
+        }
+        29 => {
+            let p = ensure(doc, g, "image")?;
+            let v = *g.rng.pick(&FILE_BAD);
+            set_attr(node_mut(doc, &p), "fileName", v, g.rng);
+            lab(&format!("image fileName={:?}", v), false, "")
+        }
+        // ---- contour sequences
+        30 => {
+            let p = ensure(doc, g, "contour")?;
+            let len = g.rng.range(1, 6) as usize;
+            let seq = gen_seq(g.rng, len, false);
+            let pts: Vec<Node> = seq.iter().map(|(t, sm)| g.point(*t, *sm, None)).collect();
+            *node_mut(doc, &p).kids_mut().unwrap() = pts;
+            lab("illegal point sequence", false, "")
+        }
+        // ---- XML level
+        31 => {
+            let p = pick_site(doc, g.rng, |s| s.parent != "" || s.name == "glyph")?;
+            let n = node_mut(doc, &p);
+            let a = n.attrs_mut().unwrap();
+            if a.is_empty() {
+                return None;
+            }
+            let e = a[g.rng.below(a.len() as u64) as usize].clone();
+            a.push(e);
+            if n.name() == Some("outline") || n.name() == Some("lib") || n.name() == Some("note") || (n.name() == Some("contour") && matches!(n, Node::Empty(_, _))) {
+                return None;
+            }
+            lab("repeated attribute", false, "")
+        }
+        // ---- legal surface forms norad rejects (F14, F17)
+        32 => {
+            let kind = *g.rng.pick(&["advance", "unicode", "image", "anchor", "guideline", "component", "point"]);
+            let p = ensure(doc, g, kind)?;
+            let n = node_mut(doc, &p);
+            let a = n.attrs().unwrap().clone();
+            *n = el(kind, a, vec![]);
+            lab(&format!("{} in start-tag form", kind), true, "F14")
+        }
+        33 => {
+            if ver == 1 {
+                return None;
+            }
+            let p = ensure(doc, g, "note")?;
+            *node_mut(doc, &p) = em("note", vec![]);
+            lab("note self-closing", true, "F14")
+        }
+        34 => {
+            let parent = *g.rng.pick(&["glyph", "outline", "contour"]);
+            let p = if parent == "glyph" { vec![ri] } else { ensure(doc, g, parent)? };
+            insert_child(doc, &p, g.rng, Node::Comment(" c ".into()));
+            lab(&format!("comment inside {}", parent), true, "F14")
+        }
+        35 => {
+            doc.insert(ri, Node::DocType("glyph".into()));
+            lab("DOCTYPE before glyph", true, "F17")
+        }
+        36 => {
+            let a = doc[ri].attrs().unwrap().clone();
+            doc[ri] = em("glyph", a);
+            lab("glyph self-closing", true, "F17")
+        }
+        37 => {
+            if ver != 1 {
+                return None;
+            }
+            let mut g2 = Gen { rng: &mut *g.rng, ver: 2, next_id: 0, ids: vec![] };
+            let n = g2.note();
+            insert_child(doc, &[ri], g.rng, n);
+            lab("format 1 with note", true, "F17")
+        }
+        // ---- self-closing contour: attributes are never read (F16)
+        38 => {
+            let op = ensure(doc, g, "outline")?;
+            let (a, legal, what): (Vec<(String, String)>, bool, &str) = match g.rng.below(5) {
+                0 => (vec![at("bogus", "1")], false, "unknown attribute"),
+                1 if ver == 1 => (vec![at("identifier", "c1")], false, "identifier in format 1"),
+                1 => (vec![at("identifier", "\u{e9}")], false, "malformed identifier"),
+                2 if ver == 2 => {
+                    let ids = all_ids(doc);
+                    if ids.is_empty() {
+                        return None;
+                    }
+                    (vec![at("identifier", &g.rng.pick(&ids).clone())], false, "duplicate identifier")
+                }
+                3 if ver == 2 => (vec![at("identifier", &g.fresh_id())], true, "fresh identifier"),
+                _ => (vec![at("identifier", "x"), at("identifier", "x")], false, "repeated attribute"),
+            };
+            insert_child(doc, &op, g.rng, em("contour", a));
+            lab(&format!("self-closing contour with {}", what), legal, if legal { "" } else { "F16" })
+        }
+        39 => {
+            // the identifier of a self-closing contour is not registered: a later duplicate passes
+            if ver != 2 {
+                return None;
+            }
+            let op = ensure(doc, g, "outline")?;
+            let id = g.fresh_id();
+            insert_child(doc, &op, g.rng, em("contour", vec![at("identifier", &id)]));
+            let kind = *g.rng.pick(&["anchor", "guideline", "component", "point"]);
+            let p = ensure(doc, g, kind)?;
+            set_attr(node_mut(doc, &p), "identifier", &id, g.rng);
+            lab(&format!("identifier of a self-closing contour repeated on {}", kind), false, "F16")
+        }
+        40 => {
+            if ver == 1 {
+                return None;
+            }
+            let p = ensure(doc, g, "note")?;
+            let k = match g.rng.below(3) {
+                0 => vec![Node::Text("x".into()), el("b", vec![], vec![Node::Text("in".into())]), Node::Text("y".into())],
+                1 => vec![el("b", vec![], vec![Node::Text("only inside".into())])],
+                _ => vec![Node::Text("t".into()), em("br", vec![])],
+            };
+            *node_mut(doc, &p) = el("note", vec![], k);
+            lab("element inside note", false, "F16")
+        }
+        // ---- things the rules do not forbid (must be accepted)
+        41 => {
+            if ver == 1 {
+                return None;
+            }
+            let p = ensure(doc, g, "note")?;
+            let k = match g.rng.below(3) {
+                0 => vec![Node::CData("cdata note".into())],
+                1 => vec![Node::Comment("c".into()), Node::Text(" after comment ".into())],
+                _ => vec![Node::Text("a".into()), Node::Comment("c".into()), Node::Text("b".into())],
+            };
+            *node_mut(doc, &p) = el("note", vec![], k);
+            lab("note with CDATA / comments", true, "")
+        }
+        42 => {
+            let p = ensure(doc, g, "point")?;
+            let v = *g.rng.pick(&["maybe", "", "YES", "no"]);
+            set_attr(node_mut(doc, &p), "smooth", v, g.rng);
+            // smooth on an off-curve is a contour error only when it reads as yes
+            lab(&format!("smooth={:?}", v), true, "")
+        }
+        43 => {
+            let p = ensure(doc, g, "unicode")?;
+            set_attr(node_mut(doc, &p), "hex", "+41", g.rng);
+            lab("hex=+41", true, "")
+        }
+        44 => {
+            if ver == 1 {
+                return None;
+            }
+            let kind = *g.rng.pick(&OBJ_KINDS);
+            let p = ensure(doc, g, kind)?;
+            if all_ids(doc).iter().any(|i| i.is_empty()) {
+                return None;
+            }
+            set_attr(node_mut(doc, &p), "identifier", "", g.rng);
+            lab("empty identifier", true, "")
+        }
+        45 => {
+            let p = ensure(doc, g, "lib")?;
+            *node_mut(doc, &p) = el(
+                "lib",
+                vec![],
+                vec![el(
+                    "dict",
+                    vec![],
+                    vec![
+                        text_el("key", "public.objectLibs"),
+                        el("dict", vec![], vec![text_el("key", "nobody"), text_el("string", "orphan, not a dictionary")]),
+                        text_el("key", "k"),
+                        text_el("string", "v"),
+                    ],
+                )],
+            );
+            lab("orphan object lib that is not a dictionary", true, "")
+        }
+        46 => {
+            // boundary identifiers / names / angles that are legal
+            if ver == 1 {
+                return None;
+            }
+            let p = ensure(doc, g, "guideline")?;
+            let n = node_mut(doc, &p);
+            set_attr(n, "x", "1", g.rng);
+            set_attr(n, "y", "2", g.rng);
+            let v = *g.rng.pick(&ANGLE_OK);
+            set_attr(n, "angle", v, g.rng);
+            lab(&format!("guideline angle {} (boundary, legal)", v), true, "")
+        }
+        47 => {
+            if ver == 1 {
+                return None;
+            }
+            let kind = *g.rng.pick(&OBJ_KINDS);
+            let p = ensure(doc, g, kind)?;
+            let id = "b".repeat(100);
+            if all_ids(doc).contains(&id) {
+                return None;
+            }
+            set_attr(node_mut(doc, &p), "identifier", &id, g.rng);
+            lab("identifier of 100 characters (legal)", true, "")
+        }
+        48 => {
+            // duplicate identifier between a point and its own contour / nested kinds
+            if ver == 1 {
+                return None;
+            }
+            let p = ensure(doc, g, "point")?;
+            let cp = p[..p.len() - 1].to_vec();
+            let id = g.fresh_id();
+            set_attr(node_mut(doc, &cp), "identifier", &id, g.rng);
+            set_attr(node_mut(doc, &p), "identifier", &id, g.rng);
+            lab("point repeats the identifier of its contour", false, "")
+        }
+        49 => {
+            // format 1: unknown attribute / any attribute on a contour in start form
+            if ver != 1 {
+                return None;
+            }
+            let p = ensure(doc, g, "contour")?;
+            set_attr(node_mut(doc, &p), *g.rng.pick(&["bogus", "identifier"]), "1", g.rng);
+            lab("format 1 contour with attribute", false, "")
+        }
+        50 => {
+            // empty component base
+            let p = ensure(doc, g, "component")?;
+            set_attr(node_mut(doc, &p), "base", "", g.rng);
+            lab("component base empty", false, "")
+        }
+        51 => {
+            // second, identical code point: legal, de-duplicated
+            let p = ensure(doc, g, "unicode")?;
+            let n = node_mut(doc, &p).clone();
+            insert_child(doc, &[ri], g.rng, n);
+            lab("repeated code point (legal)", true, "")
+        }
+        52 => {
+            // wrong root
+            let a = doc[ri].attrs().unwrap().clone();
+            let k = doc[ri].kids().cloned().unwrap_or_default();
+            doc[ri] = el(*g.rng.pick(&["glif", "Glyph", "outline"]), a, k);
+            lab("root element is not glyph", false, "")
+        }
+        53 => {
+            // text or element before the root
+            let n = if g.rng.chance(1, 2) { Node::Text("hello".into()) } else { em("pre", vec![]) };
+            doc.insert(ri, n);
+            lab("content before glyph", false, "")
+        }
+        54 => {
+            // CDATA / text directly inside glyph, outline or contour
+            let parent = *g.rng.pick(&["glyph", "outline", "contour"]);
+            let p = if parent == "glyph" { vec![ri] } else { ensure(doc, g, parent)? };
+            insert_child(doc, &p, g.rng, Node::CData("x".into()));
+            lab(&format!("CDATA inside {}", parent), false, "")
+        }
+        _ => lab("none", true, ""),
+    }
+}
+
+fn node_ref<'a>(doc: &'a [Node], path: &[usize]) -> &'a Node {
+    let mut n = &doc[path[0]];
+    for i in &path[1..] {
+        n = &n.kids().unwrap()[*i];
+    }
+    n
+}
+
+fn node_of_json(v: &serde_json::Value) -> Node {
+    let arr = v.as_array().expect("node");
+    let tag = arr[0].as_str().unwrap_or("");
+    let st = |i: usize| arr.get(i).and_then(|x| x.as_str()).unwrap_or("").to_string();
+    let attrs = |i: usize| -> Vec<(String, String)> {
+        arr.get(i)
+            .and_then(|x| x.as_array())
+            .map(|l| l.iter().map(|kv| (kv[0].as_str().unwrap_or("").to_string(), kv[1].as_str().unwrap_or("").to_string())).collect())
+            .unwrap_or_default()
+    };
+    match tag {
+        "E" => Node::Empty(st(1), attrs(2)),
+        "S" => Node::Elem(st(1), attrs(2), arr.get(3).and_then(|x| x.as_array()).map(|l| l.iter().map(node_of_json).collect()).unwrap_or_default()),
+        "T" => Node::Text(st(1)),
+        "CD" => Node::CData(st(1)),
+        "C" => Node::Comment(st(1)),
+        "DT" => Node::DocType(st(1)),
+        _ => Node::Decl,
+    }
+}
+
+fn emit(out: &mut String, id: i64, ver: u32, label: &Label, doc: &[Node], xml: &str, corpus: &str) {
+    let (tm, short, _) = parse_outcome(xml.as_bytes());
+    let (c14, c16, c17) = (f14(doc), f16(doc), f17(doc));
+    let tm = Xt::L(vec![tm, Xt::L(vec![Xt::b(label.legal), Xt::b(c14), Xt::b(c16), Xt::b(c17)])]);
+    let tbl = pf_table(doc);
+    let _ = std::fmt::Write::write_fmt(
+        out,
+        format_args!(
+            "{{\"id\":{},\"ver\":{},\"inj\":{},\"legal\":{},\"class\":{},\"f14\":{},\"f16\":{},\"f17\":{},\"impl\":{},\"case\":{},\"exp\":{},\"xml\":{},\"corpus\":{}}}\n",
+            id,
+            ver,
+            json_str(&label.inj),
+            label.legal,
+            json_str(label.class),
+            c14,
+            c16,
+            c17,
+            json_str(&short),
+            json_str(&Xt::L(vec![xt_doc(doc), xt_pf_table(&tbl)]).packed()),
+            json_str(&tm.packed()),
+            json_str(xml),
+            json_str(corpus)
+        ),
+    );
+}
+
+pub fn main(a: &Args) {
+    if std::env::var("VERIF_DEBUG").is_ok() {
+        let _ = std::panic::take_hook();
+    }
+    if let Some(p) = &a.replay {
+        let s = std::fs::read_to_string(p).expect("replay file");
+        let v: serde_json::Value = serde_json::from_str(&s).expect("json");
+        let xml = v["xml"].as_str().unwrap_or("");
+        let (tm, short, _) = parse_outcome(xml.as_bytes());
+        println!("{}", short);
+        println!("{}", tm.to_tm().to_string());
+        return;
+    }
+    let mut rng = Rng::new(a.seed);
+    // committed witnesses first: --corpus DIR
+    if let Some(i) = a.extra.iter().position(|x| x == "--corpus") {
+        let dir = std::path::PathBuf::from(&a.extra[i + 1]);
+        let mut names: Vec<_> = std::fs::read_dir(&dir).map(|d| d.filter_map(|e| e.ok()).map(|e| e.path()).collect()).unwrap_or_default();
+        names.sort();
+        let mut out = String::new();
+        let mut k = 0i64;
+        for p in names {
+            if p.extension().and_then(|x| x.to_str()) != Some("json") {
+                continue;
+            }
+            let v: serde_json::Value = serde_json::from_str(&std::fs::read_to_string(&p).expect("corpus file")).expect("corpus json");
+            let doc: Vec<Node> = v["doc"].as_array().expect("doc").iter().map(node_of_json).collect();
+            let class: &'static str = match v["class"].as_str().unwrap_or("") {
+                "F14" => "F14",
+                "F16" => "F16",
+                "F17" => "F17",
+                _ => "",
+            };
+            let label = Label { inj: v["inj"].as_str().unwrap_or("").to_string(), legal: v["legal"].as_bool().unwrap_or(false), class };
+            let ver = 0;
+            for vary in [false, true] {
+                k -= 1;
+                let xml = render(&doc, &mut rng, vary);
+                emit(&mut out, k, ver, &label, &doc, &xml, p.file_name().and_then(|x| x.to_str()).unwrap_or(""));
+            }
+        }
+        write_file(&a.out.join("cases_corpus.jsonl"), &out);
+    }
+    let n = if a.thorough() { 300_000 } else { 16_000 };
+    let mut out = String::new();
+    let mut i = 0u64;
+    let mut file_no = 0;
+    let per_file = 1000;
+    let mut in_file = 0;
+    while i < n {
+        let ver = if rng.chance(2, 5) { 1 } else { 2 };
+        let mut r2 = rng.fork();
+        let mut g = Gen { rng: &mut r2, ver, next_id: 0, ids: vec![] };
+        let mut doc = g.doc();
+        let which = if i % 7 == 0 { 0 } else { 1 + g.rng.below(N_INJ - 6) };
+        let label = match inject(&mut doc, &mut g, which) {
+            Some(l) => l,
+            None => continue,
+        };
+        let vary = i % 5 != 0;
+        let xml = render(&doc, g.rng, vary);
+        emit(&mut out, i as i64, ver, &label, &doc, &xml, "");
+        i += 1;
+        in_file += 1;
+        if in_file == per_file {
+            write_file(&a.out.join(format!("cases_{}.jsonl", file_no)), &out);
+            out.clear();
+            file_no += 1;
+            in_file = 0;
+        }
+    }
+    if in_file > 0 {
+        write_file(&a.out.join(format!("cases_{}.jsonl", file_no)), &out);
+        file_no += 1;
+    }
+    write_file(&a.out.join("summary.json"), &format!("{{\"cases\":{},\"files\":{}}}", n, file_no));
 }
